@@ -9,7 +9,6 @@ import (
 	"golang.org/x/exp/slog"
 	"io"
 	"net/http"
-	"net/http/httptest"
 	"os"
 	"path/filepath"
 	"strings"
@@ -114,7 +113,7 @@ func TestVerifC18Services(t *testing.T) {
 	mux.Handle("/upload/", handleUpload(ucfg, up))
 	mux.Handle("/charts/", handleCharts(render, charted))
 	mux.Handle("/data/", handleData(render, merged))
-	srv := httptest.NewServer(mux)
+	srv := verifrt.NewHTTPServer(mux)
 	defer srv.Close()
 	client := &http.Client{CheckRedirect: func(*http.Request, []*http.Request) error { return http.ErrUseLastResponse }}
 
